@@ -103,6 +103,116 @@ def check_literals(res, facts):
 
 # ---- R-RADIX ---------------------------------------------------------------------------------------------
 
+class _Lit:
+    """abstract literal text: ['-'] [radix prefix] DIGITS, DIGITS opaque (not starting with '-' or a radix prefix)"""
+    def __init__(self, neg, prefix):
+        self.neg, self.prefix = neg, prefix
+
+    def head(self):
+        return ("-" if self.neg else "") + self.prefix
+
+
+class _Parsed(Exception):
+    pass
+
+
+def _radix_by_interpretation(facts, fn, prefix, neg):
+    """interpret the parser on the abstract literal; returns (parsed text state, radix, negations) or raises BI.Stop"""
+    from arklib import bvinterp as BI
+    consts = {k["id"]: k.get("val") for c in facts.crates if c.name == fn.crate and c.unit == fn.unit for k in c.consts}
+    events = []
+
+    def conv(v):
+        if isinstance(v, list):
+            return BI.Slice([conv(x) for x in v]) if not (v and all(not isinstance(x, list) for x in v) and any(isinstance(x, str) for x in v)) else tuple(conv(x) for x in v)
+        return v
+
+    def const_of(k):
+        v = consts.get(k.get("def") or k.get("static"))
+        return conv(v) if v is not None else None
+
+    def closure_of(t, host=None):
+        cty = [a for a in (t["f"].get("targs") or []) if a.startswith("{closure@")]
+        cands = [c for c in facts.fns(unit=fn.unit, crate=fn.crate) if c.kind == "Closure" and cty and cty[0] in (c.local_ty(1) or "")]
+        return cands[0] if len(cands) == 1 else None
+
+    def sval(x):
+        while isinstance(x, BI.Ref):
+            x = x.get()
+        return x
+
+    def pat(x):
+        x = sval(x)
+        if isinstance(x, int) and not isinstance(x, bool):
+            return chr(x)
+        return x
+
+    def model(nm, argv, t):
+        a = [sval(x) for x in argv]
+        if nm in ("starts_with", "strip_prefix") and len(a) == 2 and isinstance(a[0], _Lit):
+            p_ = pat(argv[1])
+            if not isinstance(p_, str) or p_ == "":
+                raise BI.Stop("pattern %r" % (p_,))
+            h = a[0].head()
+            if h.startswith(p_):
+                rest = h[len(p_):]
+                if rest not in ("",) + tuple(PREFIXES_ALL) + tuple("-" + q for q in PREFIXES_ALL) and rest != "-":
+                    raise BI.Stop("pattern %r cuts a prefix in the middle" % p_)
+                hit = True
+            elif p_.startswith(h) and h != p_ and h != "":
+                raise BI.Stop("pattern %r reaches into the opaque digits" % p_)
+            elif h == "" and p_ not in ("-",) + tuple(PREFIXES_ALL):
+                raise BI.Stop("pattern %r tested against opaque digits" % p_)
+            else:
+                hit = False
+            if nm == "starts_with":
+                return hit
+            if not hit:
+                return BI.Opt()
+            rest = h[len(p_):]
+            return BI.Opt(_Lit(rest.startswith("-"), rest.lstrip("-")), True)
+        if nm == "index" and len(a) == 2 and isinstance(a[0], _Lit) and isinstance(a[1], BI.Struct) and set(a[1].fields) == {0} and isinstance(a[1].fields[0], int):
+            k_ = a[1].fields[0]
+            h = a[0].head()
+            if k_ > len(h) or (k_ < len(h) and h[k_:] not in PREFIXES_ALL):
+                raise BI.Stop("slicing [%d..] cuts into the digits / a prefix of %r" % (k_, h))
+            rest = h[k_:]
+            return BI.Ref({"s": _Lit(False, rest)}, "s")
+        if nm in ("from_str_radix", "from_str") and a and isinstance(a[0], _Lit):
+            radix = a[1] if nm == "from_str_radix" else 10
+            events.append(("parse", a[0].head(), radix))
+            return BI.Opt(BI.Tok(("num", 0)), True)
+        if nm == "neg" and len(a) == 1 and isinstance(a[0], BI.Tok) and a[0].label[0] == "num":
+            return BI.Tok(("num", a[0].label[1] + 1))
+        if nm == "to_radix_le" and a and isinstance(a[0], BI.Tok):
+            events.append(("out", a[0].label[1], a[1] if len(a) > 1 else None))
+            raise _Parsed()
+        if nm == "or_else" and len(a) == 2 and isinstance(a[0], BI.Opt):
+            if a[0].some:
+                return a[0]
+            clo = closure_of(t)
+            if clo is None:
+                raise BI.Stop("or_else closure not resolved")
+            v2, _ = BI.run(clo, {1: argv[1]}, call_model=model, max_steps=4000, closure_of=closure_of, const_of=const_of)
+            return v2.get(0)
+        # helper functions of the same crate are interpreted in place
+        for key_ in (t["f"].get("res"), t["f"].get("path")):
+            callee = facts.get(key_, fn.unit) if key_ else None
+            if callee is not None and callee.kind != "Closure" and callee.crate == fn.crate and callee.d["argc"] == len(argv):
+                v2, _ = BI.run(callee, {i + 1: x for i, x in enumerate(argv)}, call_model=model, max_steps=4000, closure_of=closure_of, const_of=const_of)
+                return v2.get(0)
+        return NotImplemented
+    lit = {"s": _Lit(neg, prefix)}
+    try:
+        BI.run(fn, {1: BI.Ref(lit, "s")}, call_model=model, max_steps=6000, closure_of=closure_of, const_of=const_of)
+    except _Parsed:
+        pass
+    return events
+
+
+PREFIXES_ALL = ("0x", "0X", "0o", "0O", "0b", "0B")
+
+
 def check_radix(res, facts):
     rule = res.rule("R-RADIX", "literal parser: prefix -> radix table, prefix and sign stripped before parsing, sign re-applied, 16 hex digits per limb (little-endian)", 9)
     fns = [f for f in facts.fns(unit="ws", crate="ark_ff_macros") if f.id == "ark_ff_macros::utils::str_to_limbs_u64"]
@@ -112,9 +222,30 @@ def check_radix(res, facts):
     fn = fns[0]
     want = {"": ("from_str", 10), "0x": ("from_str_radix", 16), "0X": ("from_str_radix", 16), "0o": ("from_str_radix", 8), "0O": ("from_str_radix", 8),
             "0b": ("from_str_radix", 2), "0B": ("from_str_radix", 2)}
+    from arklib import bvinterp as BI
     for prefix, (pf, radix) in want.items():
         for neg in (False, True):
             key = "ark_ff_macros|str_to_limbs_u64|%s%s" % ("-" if neg else "", prefix or "decimal")
+            # form-independent decision first: interpret the parser (helpers, closures and loops included) on the
+            # abstract literal ['-'][prefix]DIGITS
+            try:
+                evs = _radix_by_interpretation(facts, fn, prefix, neg)
+            except BI.Stop as e:
+                evs = None
+                if os.environ.get("VERIF_DEBUG"):
+                    print("radix interp stop:", key, e)
+            if evs is not None:
+                parses = [e for e in evs if e[0] == "parse"]
+                outs = [e for e in evs if e[0] == "out"]
+                okp = len(parses) == 1 and parses[0][1] == "" and parses[0][2] == radix
+                oko = len(outs) == 1 and outs[0][1] == (1 if neg else 0) and outs[0][2] == 16
+                if okp and oko:
+                    rule.ok(key, "digits parsed in radix %d%s%s [interpretation of the parser on the abstract literal]" % (radix, ", prefix stripped" if prefix else "", ", '-' stripped and re-applied" if neg else ""), fn.loc)
+                else:
+                    rule.bad(key, "a literal %s: the parser is handed %s and the number is negated %s time(s) before limb extraction; expected the bare digits in radix %d and %d negation(s)" % (
+                        ("starting with '%s%s'" % ("-" if neg else "", prefix)) if (prefix or neg) else "without prefix",
+                        ["'%sDIGITS' in radix %s" % (p_[1], p_[2]) for p_ in parses] or "nothing", [o[1] for o in outs], radix, 1 if neg else 0), fn.loc)
+                continue
 
             def oracle(st, bb, t, prefix=prefix, neg=neg):
                 if t["f"].get("name") == "starts_with":
@@ -201,6 +332,55 @@ def called_on_paths(fn, oracle_map):
     return outs
 
 
+SUBS = ("sub_with_borrow", "const_sub_with_borrow")
+
+
+def _value_on_trace(fn, st, operand, depth=10):
+    """what an operand holds on one explored path: a constant, ('field', call name, field) of a call result, or None"""
+    o = operand
+    for _ in range(depth):
+        if "k" in o:
+            return o["k"].get("v", o["k"].get("def"))
+        l, projs = place_parts(op_place(o))
+        fields = [p_[2] for p_ in projs if isinstance(p_, (list, tuple)) and p_[0] == "f"]
+        found = None
+        for ti in range(len(st.trace) - 1, -1, -1):
+            b = fn.bbs[st.trace[ti]]
+            t = b["t"]
+            if t["k"] == "call" and place_parts(t["d"]) == (l, []):
+                found = ("call", t)
+                break
+            for s_ in reversed(b["s"]):
+                if "d" in s_ and place_parts(s_["d"]) == (l, []):
+                    found = ("assign", s_["r"])
+                    break
+            if found:
+                break
+        if not found:
+            return None
+        if found[0] == "call":
+            return ("field", found[1]["f"].get("name"), tuple(fields))
+        r = found[1]
+        if r["k"] == "use" and not fields:
+            o = r["o"]
+            continue
+        if r["k"] == "use":
+            l2, p2 = place_parts(op_place(r["o"])) if "k" not in r["o"] else (None, None)
+            if l2 is None:
+                return None
+            o = {"c": [l2, list(p2) + [p_ for p_ in projs]]} if False else r["o"]
+            # field of a copied aggregate: follow the copy, keep the field selection
+            inner = _value_on_trace(fn, st, r["o"], depth - 1)
+            if isinstance(inner, tuple) and inner[0] == "field":
+                return ("field", inner[1], inner[2] + tuple(fields))
+            return None
+        if r["k"] == "un" and r.get("op") == "Not":
+            v = _value_on_trace(fn, st, r["o"], depth - 1)
+            return (not v) if isinstance(v, bool) else (("not", v) if v is not None else None)
+        return None
+    return None
+
+
 def check_constpath(res, facts):
     rule = res.rule("R-CONSTPATH", "const constructors: new = mul by R2 unless zero; from_sign_and_limbs negates exactly on !is_positive; const_neg; final reduction iff carry || !is_valid", 6)
     fns = fp_fns(facts)
@@ -218,7 +398,7 @@ def check_constpath(res, facts):
                 subs = set()
                 for st, e in PS.explore(fn, oracle, init={2: carry}, max_states=100):
                     if e == "return":
-                        subs.add(any(t["f"].get("name") == "sub_with_borrow" for _, t in st.calls))
+                        subs.add(any(t["f"].get("name") in SUBS for _, t in st.calls))
                 table[(carry, valid)] = subs
         want = {(c, v): {c or not v} for c in (False, True) for v in (False, True)}
         if table == want:
@@ -228,46 +408,70 @@ def check_constpath(res, facts):
             rule.bad(key, "final reduction of the const multiplication: for (carry, value < p) in %s the modulus is %s; a product in [p, 2^(64N)) or with a carry would stay unreduced, so the constant differs from the run-time element" % (sorted(wrong), "subtracted on " + str(wrong)), fn.loc)
     fn = fns.get("const_subtract_modulus")
     key = "ark_ff|Fp::const_subtract_modulus"
+    mulfn = fns.get("mul")
     if fn is None:
-        rule.bad(key, "anchor missing")
+        # the carry-less form may have been merged into the carry-aware one; then mul(const) must not call it
+        if mulfn is not None and not any(t["f"].get("name") == "const_subtract_modulus" for _, t in mulfn.calls()):
+            rule.ok(key, "no separate carry-less reduction: mul(const) reduces through const_subtract_modulus_with_carry on every arm (decided there)")
+        else:
+            rule.bad(key, "anchor missing")
     else:
         table = {}
         for valid in (False, True):
             def oracle(st, bb, t, valid=valid):
                 return valid if t["f"].get("name") == "const_is_valid" else PS.UNKNOWN
-            table[valid] = {any(t["f"].get("name") == "sub_with_borrow" for _, t in st.calls) for st, e in PS.explore(fn, oracle, max_states=100) if e == "return"}
+            table[valid] = {any(t["f"].get("name") in SUBS for _, t in st.calls) for st, e in PS.explore(fn, oracle, max_states=100) if e == "return"}
         ok = table == {False: {True}, True: {False}}
         (rule.ok if ok else rule.bad)(key, "subtracts iff !is_valid" if ok else "reduction table %s" % table, fn.loc)
-    # mul (const): spare-bit arm -> const_subtract_modulus, otherwise with_carry(carry of mul_without_cond_subtract)
-    fn = fns.get("mul")
+    # mul (const): on every path the product of mul_without_cond_subtract is reduced; where the modulus has no spare bit
+    # the reduction must be the carry-aware one and receive the carry of that multiplication
+    fn = mulfn
     key = "ark_ff|Fp::mul(const)"
     if fn is None:
         rule.bad(key, "anchor missing")
     else:
         problems = []
-        calls = {t["f"].get("name"): t for _, t in fn.calls()}
-        if not {"mul_without_cond_subtract", "const_subtract_modulus", "const_subtract_modulus_with_carry"} <= set(calls):
-            problems.append("calls %s" % sorted(calls))
-        else:
-            prod = C("mul_without_cond_subtract", A(1), A(2))
-            a0 = E(fn, calls["const_subtract_modulus_with_carry"]["args"][0])
-            a1 = E(fn, calls["const_subtract_modulus_with_carry"]["args"][1])
-            b0 = E(fn, calls["const_subtract_modulus"]["args"][0])
-            if not (_is_field(a0, prod, "1") and _is_field(a1, prod, "0") and _is_field(b0, prod, "1")):
-                problems.append("reduction is applied to %s with carry %s" % (show(a0), show(a1)))
-            sw = [E(fn, b["t"]["o"]) for b in fn.bbs if b["t"]["k"] == "switch"]
-            if "MODULUS_HAS_SPARE_BIT" not in sw:
-                problems.append("arms are not selected by MODULUS_HAS_SPARE_BIT (%s)" % [show(x) for x in sw])
+        seen_arms = set()
+        for st, e in PS.explore(fn, lambda st, bb, t: PS.UNKNOWN, max_states=200):
+            if e != "return":
+                continue
+            # which way did the path go at the spare-bit test (directly or through its negation)?
+            spare = None
+            for i_, bbi in enumerate(st.trace[:-1]):
+                t = fn.bbs[bbi]["t"]
+                if t["k"] == "switch":
+                    c = E(fn, t["o"])
+                    nxt = st.trace[i_ + 1]
+                    truth = nxt == t["else"] if t["vals"] == [0] else None
+                    if c == "MODULUS_HAS_SPARE_BIT" and truth is not None:
+                        spare = truth
+                    elif c == ("un", "Not", "MODULUS_HAS_SPARE_BIT") and truth is not None:
+                        spare = not truth
+            reds = [(bb, t) for bb, t in st.calls if t["f"].get("name") in ("const_subtract_modulus", "const_subtract_modulus_with_carry")]
+            prods = [t for bb, t in st.calls if t["f"].get("name") == "mul_without_cond_subtract"]
+            if len(reds) != 1 or len(prods) != 1:
+                problems.append("a path performs %d multiplications and %d final reductions" % (len(prods), len(reds)))
+                continue
+            rt = reds[0][1]
+            v0 = _value_on_trace(fn, st, rt["args"][0])
+            if v0 != ("field", "mul_without_cond_subtract", ("1",)):
+                problems.append("the reduction is applied to %s, not to the product" % (v0,))
+            if rt["f"]["name"] == "const_subtract_modulus_with_carry":
+                cv = _value_on_trace(fn, st, rt["args"][1])
+                is_carry = cv == ("field", "mul_without_cond_subtract", ("0",))
+                if spare is False and not is_carry:
+                    problems.append("without a spare bit the reduction receives %s instead of the carry of the multiplication" % (cv,))
+                elif spare is True and not (is_carry or cv is False):
+                    problems.append("spare-bit arm passes %s as carry" % (cv,))
+                elif spare is None and not is_carry:
+                    problems.append("the reduction receives %s instead of the carry of the multiplication" % (cv,))
             else:
-                # spare-bit true arm must be the carry-less one
-                for bi, b in enumerate(fn.bbs):
-                    t = b["t"]
-                    if t["k"] == "switch" and E(fn, t["o"]) == "MODULUS_HAS_SPARE_BIT":
-                        false_t, true_t = t["tgts"][0], t["else"]
-                        wc = [bb for bb, tt in fn.calls() if tt["f"].get("name") == "const_subtract_modulus_with_carry"][0]
-                        if not _reach(fn, false_t, wc) or _reach(fn, true_t, wc):
-                            problems.append("the carry-aware reduction is on the spare-bit arm")
-        (rule.bad if problems else rule.ok)(key, "; ".join(problems) if problems else "spare bit: reduce iff >= p; no spare bit: reduce with the carry of the multiplication", fn.loc)
+                if spare is not True:
+                    problems.append("the carry-less reduction is used on a path where the modulus may have no spare bit: a carry out of the top limb would be dropped")
+            seen_arms.add(spare)
+        if not seen_arms:
+            problems.append("no complete path found")
+        (rule.bad if problems else rule.ok)(key, "; ".join(sorted(set(problems))) if problems else "product of mul_without_cond_subtract reduced on every path; without a spare bit through the carry-aware form with its carry (arms seen: %s)" % sorted(map(str, seen_arms)), fn.loc)
     # new
     fn = fns.get("new")
     key = "ark_ff|Fp::new"
@@ -278,7 +482,7 @@ def check_constpath(res, facts):
         ok = len(muls) == 1
         if ok:
             rhs = E(fn, muls[0]["args"][1])
-            ok = rhs == "R2" or (isinstance(rhs, tuple) and rhs[0] == "agg" and rhs[2][:1] == ("R2",))
+            ok = rhs == "R2" or (isinstance(rhs, tuple) and rhs[0] == "agg" and rhs[2][:1] == ("R2",)) or rhs == C("new_unchecked", "R2")
         outs = called_on_paths(fn, {"const_is_zero": True}) | set()
         outs2 = called_on_paths(fn, {"const_is_zero": False})
         ok = ok and all("mul" not in o for o in outs) and all("mul" in o for o in outs2)
@@ -315,8 +519,8 @@ def check_constpath(res, facts):
     else:
         z = called_on_paths(fn, {"const_is_zero": True})
         nz = called_on_paths(fn, {"const_is_zero": False})
-        subs = [t for _, t in fn.calls() if t["f"].get("name") == "sub_with_borrow"]
-        ok = all("sub_with_borrow" not in o for o in z) and all("sub_with_borrow" in o for o in nz) and len(subs) == 1
+        subs = [t for _, t in fn.calls() if t["f"].get("name") in SUBS]
+        ok = all(not (set(SUBS) & set(o)) for o in z) and all(set(SUBS) & set(o) for o in nz) and len(subs) == 1
         if ok:
             a0, a1 = E(fn, subs[0]["args"][0]), E(fn, subs[0]["args"][1])
             ok = a0 == "MODULUS" and a1 == A(1, "0")
